@@ -64,12 +64,18 @@ func (p *Program) nodeOpts(n *Node, cells map[string]*cell) []compose.GraphAddNo
 		cells["post:"+n.Name] = c
 		opts = append(opts, postTab[n.Post](c))
 	}
+	if n.Keyed {
+		opts = append(opts, compose.WithInputKey("k"), compose.WithOutputKey("o"))
+	}
 	return opts
 }
 
 func (p *Program) lambdaOf(n *Node, cells map[string]*cell) *compose.Lambda {
 	c := &cell{}
 	cells["out:"+n.Name] = c
+	if n.Keyed {
+		return lambdaTab[pair{tAny, tString}](c)
+	}
 	return lambdaTab[pair{n.In, n.Out}](c)
 }
 
@@ -213,6 +219,9 @@ func (r *buildResult) apply(choices []choice) any {
 		case strings.HasPrefix(k, "out:"):
 			n := p.node(k[4:])
 			c.v = value(fitting(n.Out)[0], n.Name)
+			if n.Keyed {
+				c.v = "s" // the inner lambda returns a string; the output key wraps it into a map
+			}
 		case strings.HasPrefix(k, "br:"):
 			var i int
 			fmt.Sscanf(k[3:], "%d", &i)
@@ -229,7 +238,7 @@ func (r *buildResult) apply(choices []choice) any {
 				c.s = ch.Tgt
 			}
 		case strings.HasPrefix(ch.Key, "out:"):
-			if c := r.cells[ch.Key]; c != nil {
+			if c := r.cells[ch.Key]; c != nil && !p.node(ch.Key[4:]).Keyed {
 				c.v = value(ch.Dyn, ch.Key[4:])
 			}
 		default: // pre:/post:
